@@ -27,6 +27,8 @@ def main():
         print("refusing: /repo has uncommitted changes to tracked files")
         return 2
     missed = 0
+    rp = os.path.join(ROOT, "seeded", "results.json")
+    results = json.load(open(rp)) if os.path.exists(rp) else {}
     for d in dirs:
         meta = json.load(open(os.path.join(d, "meta.json")))
         prop = meta["property"]
@@ -43,10 +45,17 @@ def main():
             caught = rc == 1 and bool(viol)
             kind = "no-failing-input-found" if viol and all("no-failing-input-found" in v for v in viol) else "with-failing-input"
             print(f"{os.path.basename(d)}: property={prop} caught={caught} rc={rc} {kind if caught else ''} :: {viol[0] if viol else out.strip().splitlines()[-1][:200]}")
+            how = ""
+            if caught:
+                clauses = sorted({l.split("clause=")[1].split(" ")[0] for l in out.splitlines() if "clause=" in l})
+                how = ("oracle clause " + ", ".join(clauses) if clauses else "") + ("; correspondence" if "correspondence:" in out else "") + ("; proof obligation" if "obligation:" in out else "")
+                how = how.strip("; ") + (" (no failing input)" if kind == "no-failing-input-found" else " (failing input reported)")
+            results[os.path.basename(d)] = {"property": prop, "caught": caught, "how": how}
             if not caught:
                 missed += 1
         finally:
             sh(["git", "checkout", "--", "."], cwd=REPO)
+    json.dump(results, open(rp, "w"), indent=1, sort_keys=True)
     # evidence files were rewritten by the runs above with violations in them: refresh on the clean tree
     for prop in sorted({json.load(open(os.path.join(d, "meta.json")))["property"] for d in dirs}):
         rc, out = sh([os.path.join(ROOT, "check"), prop, "--tier", "quick"], cwd=ROOT)
